@@ -268,7 +268,7 @@ class Overlay:
                     cur = ('fn-loop', int(d[1]))
                 elif d[0] == 'at':
                     # @@at <n> before|after | anchor text
-                    at = {'n': int(d[1]), 'where': d[2], 'anchor': parts[1], 'text': ''}
+                    at = {'n': int(d[1]), 'where': d[2], 'anchor': s[2:].split('|', 1)[1].strip(), 'text': ''}
                     fn['ats'].append(at)
                     cur = ('fn-at', at)
                 elif d[0] == 'item':
@@ -430,6 +430,29 @@ class Assembler:
                 continue
             off = found if at['where'] == 'before' else found + len(at['anchor'])
             edits.append((off, 0, '\n' + at['text'].rstrip() + '\n'))
+        # R6 `let [mut] X = RECV.peekable();` -> `let [mut] X = vf_peekable(RECV);`
+        if cfg['mode'] != 'external_body':
+            for j in range(it.body_open, it.body_close - 4):
+                if toks[j].text == '.' and toks[j + 1].text == 'peekable' and toks[j + 2].text == '(' and toks[j + 3].text == ')' \
+                        and toks[j + 4].text == ';':
+                    # walk back to the `=` of the enclosing let at bracket depth 0
+                    q = j - 1
+                    depth = 0
+                    while q > it.body_open:
+                        tx = toks[q].text
+                        if toks[q].kind == 'punct' and tx in ')]}':
+                            depth += 1
+                        elif toks[q].kind == 'punct' and tx in '([{':
+                            depth -= 1
+                        elif tx == '=' and depth == 0 and toks[q].kind == 'punct':
+                            break
+                        q -= 1
+                    if toks[q].text == '=' and toks[q - 1].kind == 'ident':
+                        edits.append((toks[q + 1].start, 0, 'vf_peekable('))
+                        edits.append((toks[j].start, toks[j + 3].end - toks[j].start, ')'))
+                        rules.append('R6')
+                    else:
+                        self.errors.append('R6: unsupported .peekable() shape in %s' % qual)
         # R1 closure `|_|`
         for j in range(it.body_open, it.body_close - 2):
             if toks[j].text == '|' and toks[j + 1].text == '_' and toks[j + 2].text == '|' and toks[j + 1].kind == 'ident':
